@@ -258,7 +258,10 @@ psf_save_write_chunk (WRITE_CHUNKS * pchk, const SF_CHUNK_INFO * chunk_info)
 	pchk->chunks [pchk->used].hash = strlen (chunk_info->id) > 4 ? hash_of_str (chunk_info->id) : u.marker ;
 	pchk->chunks [pchk->used].mark32 = u.marker ;
 	pchk->chunks [pchk->used].len = len ;
-	pchk->chunks [pchk->used].data = psf_memdup (chunk_info->data, chunk_info->datalen) ;
+	/* The header writers emit len (padded) bytes, so the copy must be that long. */
+	if ((pchk->chunks [pchk->used].data = calloc (1, len > 0 ? len : 1)) == NULL)
+		return SFE_MALLOC_FAILED ;
+	memcpy (pchk->chunks [pchk->used].data, chunk_info->data, chunk_info->datalen) ;
 
 	pchk->used ++ ;
 
